@@ -44,16 +44,19 @@ func init() {
 
 func TestC17(t *testing.T) {
 	st := kvh.StatsFor("C17")
-	st.SetRule(c17Rule,
+	st.SetRule(c17Rule+" || "+c17cRule,
 		"sizes are compared as the difference DiskSize - ReclaimableSize (the statement's equation), not as absolute values",
 		"the free-space test of Merge uses the real file system (tens of GB free here), so ErrNoEnoughSpaceForMerge can only come from drifted counters",
 		"bounds as C01")
 	defer finishProperty(st)
-	checkCases(t, st, func(t *rapid.T) {
-		runHistoryCase(t, "C17", c17Profile, func(r *kvh.Runner) bool {
-			return r.F.Rewrites >= 1 && (r.F.Batches >= 1 || r.F.Reopens >= 1)
+	t.Run("histories", func(t *testing.T) {
+		checkCases(t, st, func(t *rapid.T) {
+			runHistoryCase(t, "C17", c17Profile, func(r *kvh.Runner) bool {
+				return r.F.Rewrites >= 1 && (r.F.Batches >= 1 || r.F.Reopens >= 1)
+			})
 		})
 	})
+	t.Run("concurrent-stat", func(t *testing.T) { c17Concurrent(t, st) })
 }
 
 func c17Check(r *kvh.Runner, op *kvh.Op, s *c17State) *kvh.Fail {
